@@ -87,99 +87,121 @@ def run(ctx):
     fb, _ = count_violations(ffn)
     R.canary("C19.2", bool(fb), "fixtures/c19_bad_store.py: a block may be skipped")
 
-    # ---- terms
+    # ---- traces: the function is evaluated on three blocks of fixed sizes (arbitrary contents), a concrete directory
+    # listing, and a scripted answer to every "does the record still fit?" test; the sequence of open / write / close
+    # events must be the reference sequence for that scenario, whatever the shape of the loop body
     ev = ctx.evaluator()
-    s = ev.run(fi)
-    loops = [lp for lp in s.loops if lp.func == fi.qualname and lp.kind == "for" and tm.veq(lp.iter, P("blocks", tm.LIST))]
-    R.check("C19.2", "TERM-EQ", fi, "one loop over the given blocks, in order", len(loops) == 1, "block loop not found")
-    if len(loops) != 1:
-        return
-    lp = loops[0]
-    blk = tm.bv(lp.depth)
-    magic = T("global", ("bits.p2p.MAGIC_START_BYTES",), tm.NONE)
-    record = tm.cat([magic, le(tm.length(blk), 4), blk])
-    writes = [c for c in s.calls if c[0] == "io:write"]
-    R.check("C19.2", "TERM-EQ", fi, "every write is the record magic || len(4 LE) || block", bool(writes) and all(tm.veq(c[1][1], record) for c in writes),
-            "a write emits %s" % ([tm.show(c[1][1])[:120] for c in writes if not tm.veq(c[1][1], record)][:1]), example="any block")
     MAX = ev.const("bits.p2p", "MAX_BLOCKFILE_SIZE")
     R.check("C19.4", "TABLE", fi, "MAX_BLOCKFILE_SIZE = 0x8000000 (both modules)", MAX == 0x8000000 and ev.const("bits.blockchain", "MAX_BLOCKFILE_SIZE") == 0x8000000,
             "MAX_BLOCKFILE_SIZE = %s / %s" % (tm.show(MAX), tm.show(ev.const("bits.blockchain", "MAX_BLOCKFILE_SIZE"))), nontrivial=False)
-    hv = [v for v, init in lp.init.items() if isinstance(init, T) and init.op == "app" and init.args[0] == "open"]
-    pvs = [v for v, init in lp.init.items() if v not in hv and tm.contains(init, lambda t: t == "blk00000.dat")]
-    R.check("C19.3", "TERM-EQ", fi, "current handle and current path are carried through the loop", len(hv) == 1 and len(pvs) == 1, "handle vars %s, path vars %s" % (hv, pvs))
-    if len(hv) != 1 or len(pvs) != 1:
-        return
-    h, pv = hv[0], pvs[0]
-    hacc, pacc = T("acc", (h, lp.depth), tm.ANY), T("acc", (pv, lp.depth), tm.ANY)
-    # size bound
-    for c in writes:
-        recv = c[1][0]
-        if tm.veq(recv, hacc) or (isinstance(recv, T) and recv.op == "acc"):
-            ok = False
-            for g in c[4]:
-                if isinstance(g, T) and g.op == "cmp" and g.args[0] == "le" and g.args[2] == MAX:
-                    lhs = g.args[1]
+    magic = T("global", ("bits.p2p.MAGIC_START_BYTES",), tm.NONE)
+    datadir = P("datadir", tm.STR)
+    sizes = [81, 200, 33]
+    blocks = [tm.sized("blk%d" % i, n) for i, n in enumerate(sizes)]
+    records = [tm.cat([magic, le(n, 4), b]) for n, b in zip(sizes, blocks)]
+    listings = [([], "blk00000.dat"), (["blk00003.dat", "notes.txt", "blk00007.dat"], "blk00007.dat"), (["blk00099.dat"], "blk00099.dat")]
+    ldir = tm.app("os.listdir", [datadir], ty=tm.LIST)
+
+    def nxt(name):
+        return "blk%05d.dat" % (int(name[3:8]) + 1)
+
+    def path_of(h):
+        """The path a handle term was opened on (and its mode)."""
+        if isinstance(h, T) and h.op == "app" and h.args[0] in ("open", "builtins.open") and len(h.args[1]) >= 1:
+            return h.args[1][0], (h.args[1][1] if len(h.args[1]) > 1 else None)
+        if isinstance(h, T) and h.op == "enter":
+            return path_of(rules.unfz(h.args[0]))
+        return None, None
+
+    import itertools
+    n_scen = 0
+    problems = {"C19.2": [], "C19.3": [], "C19.4": [], "C19.5": [], "C19.1": []}
+    for listing, first in listings:
+        for decisions in itertools.product((True, False), repeat=len(blocks)):
+            n_scen += 1
+            asked = []
+
+            def script(c, decisions=decisions, asked=asked):
+                if not tm.contains(c, lambda t: isinstance(t, T) and t.op == "io" and t.args[0] == "tell"):
+                    return None
+                i = len(asked)
+                if i >= len(decisions):
+                    asked.append((c, None))
+                    return None
+                fits = decisions[i]
+                op = c.args[0] if c.op == "cmp" else None
+                asked.append((c, fits))
+                if op in ("le", "lt"):
+                    return fits
+                if op in ("gt", "ge"):
+                    return not fits
+                return None
+            ev.assume_fn = script
+            ev.bind = {ldir: list(listing)}
+            try:
+                sm = ev.run(fi, {"blocks": list(blocks), "datadir": datadir})
+            finally:
+                ev.assume_fn = None
+                ev.bind = {}
+            label = "listing %s, fits = %s" % (listing or "empty", list(decisions))
+            events = []
+            for c in sm.calls:
+                if c[4] and any(tm.land(list(c[4])) is not True for _ in (0,)):
+                    pass
+                if c[0] == "builtins.open":
+                    events.append(("open", c[1][0], c[1][1] if len(c[1]) > 1 else c[2].get("mode")))
+                elif c[0] == "io:write":
+                    events.append(("write", path_of(c[1][0])[0], c[1][1]))
+                elif c[0] == "io:close":
+                    events.append(("close", path_of(c[1][0])[0], None))
+            undecided = [c for c in sm.calls if c[0] in ("builtins.open", "io:write", "io:close") and c[4] and tm.land([g for g in c[4] if not (isinstance(g, T) and g.op == "iter")]) is not True]
+            if undecided or len(asked) != len(blocks):
+                problems["C19.3"].append((label, "%d size tests were evaluated for %d blocks (%d file operations stay conditional): the fit test is not one comparison of len(record) + tell() with the limit per block" % (
+                    len(asked), len(blocks), len(undecided))))
+                continue
+            # reference sequence
+            cur = first
+            want = [("open", T("pathjoin", (datadir, cur), tm.STR), "ab")]
+            for i, fits in enumerate(decisions):
+                if not fits:
+                    want.append(("close", T("pathjoin", (datadir, cur), tm.STR), None))
+                    cur = nxt(cur)
+                    want.append(("open", T("pathjoin", (datadir, cur), tm.STR), "ab"))
+                want.append(("write", T("pathjoin", (datadir, cur), tm.STR), records[i]))
+            want.append(("close", T("pathjoin", (datadir, cur), tm.STR), None))
+            same = len(events) == len(want) and all(a[0] == b[0] and tm.veq(a[1], b[1]) and (tm.veq(a[2], b[2]) if b[2] is not None else True) for a, b in zip(events, want))
+            if not same:
+                # classify the first difference
+                gw = [(e[1], e[2]) for e in events if e[0] == "write"]
+                ww = [(e[1], e[2]) for e in want if e[0] == "write"]
+                if len(gw) != len(ww) or any(not tm.veq(a[1], b[1]) for a, b in zip(gw, ww)):
+                    problems["C19.2"].append((label, "records written: %s, expected one record magic || len(4 LE) || block per block, in order" % [tm.show(x[1])[:60] for x in gw]))
+                elif any(not tm.veq(a[0], b[0]) for a, b in zip(gw, ww)):
+                    k = [i for i, (a, b) in enumerate(zip(gw, ww)) if not tm.veq(a[0], b[0])][0]
+                    problems["C19.4"].append((label, "block %d is written to %s, expected %s" % (k, tm.show(gw[k][0])[:80], tm.show(ww[k][0])[:80])))
+                elif [e for e in events if e[0] == "open"] != [] and any(e[2] != "ab" for e in events if e[0] == "open"):
+                    problems["C19.1"].append((label, "a block file is opened with mode %s" % [e[2] for e in events if e[0] == "open" and e[2] != "ab"][:1]))
+                else:
+                    problems["C19.5"].append((label, "open/close order is %s, expected %s" % ([(e[0], tm.show(e[1])[-16:]) for e in events], [(e[0], tm.show(e[1])[-16:]) for e in want])))
+            # the fit test itself: len(record_i) + tell(current handle) <= MAX
+            cur = first
+            for i, (c, fits) in enumerate(asked):
+                okc = isinstance(c, T) and c.op == "cmp" and c.args[0] in ("le", "gt") and c.args[2] == MAX  # x <= MAX, or its negation x > MAX
+                if okc:
+                    lhs = c.args[1]
                     tells = [t for t in tm.subterms(lhs) if isinstance(t, T) and t.op == "io" and t.args[0] == "tell"]
-                    if len(tells) == 1 and tm.veq(tells[0].args[1], recv):
-                        rest = tm.add([lhs, tm.mul([-1, tells[0]])])
-                        ok = tm.veq(rest, tm.length(record)) or tm.veq(rest, tm.add([4, tm.length(blk), tm.length(magic)]))
-            R.check("C19.3", "DOM", fi, "write to the current file dominated by len(record) + tell() <= MAX on the same handle", ok,
-                    "the write to the current file is not guarded by `len(record) + handle.tell() <= MAX_BLOCKFILE_SIZE`: guards %s" % [tm.show(g)[:140] for g in c[4]],
-                    example="a batch of small blocks that together cross the limit")
-        else:
-            ok = isinstance(recv, T) and recv.op == "app" and recv.args[0] == "open" and recv.args[1][1] == "ab"
-            R.check("C19.3", "DOM", fi, "other writes go to a file opened ('ab') in this iteration", ok, "a write goes to %s" % tm.show(recv)[:120])
-    # roll-over name
-    newpath = None
-    body_p = lp.body.get(pv)
-    if isinstance(body_p, T) and body_p.op == "ite":
-        for arm in (body_p.args[1], body_p.args[2]):
-            if not tm.veq(arm, pacc):
-                newpath = arm
-    okn = False
-    why = "no roll-over path"
-    if newpath is not None:
-        m = rules.match(T("pathjoin", (P("datadir", tm.STR), rules.W("name")), tm.STR), newpath)
-        why = "new path %s" % tm.show(newpath)[:200]
-        if m:
-            nm = m["name"]
-            parts = list(nm.args) if isinstance(nm, T) and nm.op == "scat" else []
-            if len(parts) == 3 and parts[0] == "blk" and parts[2] == ".dat":
-                num = parts[1]
-                inner = None
-                if isinstance(num, T) and num.op == "m:zfill" and num.args[1] == 5 and isinstance(num.args[0], T) and (num.args[0].op == "tostr" or (num.args[0].op == "fmt" and num.args[0].args[1] is None)):
-                    inner = num.args[0].args[0]
-                elif isinstance(num, T) and num.op == "fmt" and num.args[1] in ("05d", "05"):
-                    inner = num.args[0]
-                if inner is not None and isinstance(inner, T) and inner.op == "add" and inner.args[0] == 1 and len(inner.args) == 2:
-                    prev = inner.args[1]
-                    carried = tm.contains(prev, lambda t: isinstance(t, T) and t.op == "acc" and t.args[1] == lp.depth)
-                    from_name = tm.contains(prev, lambda t: tm.veq(t, pacc)) or (isinstance(prev, T) and prev.op == "acc")
-                    okn = carried and from_name
-                    why = "previous number = %s" % tm.show(prev)[:160]
-    R.check("C19.4", "TERM-EQ", fi, "roll-over name = datadir / 'blk' + 5-digit(current file's number + 1) + '.dat'", okn,
-            "the next block file name is not derived from the current file's number + 1, zero-padded to 5 digits (%s)" % why,
-            example="a batch that rolls over twice, or the first roll-over at all")
-    # the handle follows the path
-    body_h = lp.body.get(h)
-    okh = isinstance(body_h, T) and body_h.op == "ite" and newpath is not None and any(
-        tm.veq(arm, tm.app("open", [newpath, "ab"], ty=tm.ANY)) for arm in (body_h.args[1], body_h.args[2])) and any(tm.veq(arm, hacc) for arm in (body_h.args[1], body_h.args[2]))
-    R.check("C19.4", "TERM-EQ", fi, "after a roll-over the new file is the current one (handle and path updated together)", okh, "handle after roll-over: %s" % tm.show(body_h)[:200])
-    # close before open
-    names = [c[0] for c in s.calls]
-    roll = [i for i, c in enumerate(s.calls) if c[0] == "builtins.open" and any(isinstance(g, T) and g.op == "iter" for g in c[4])]
-    okc = bool(roll)
-    for i in roll:
-        closes = [j for j, c in enumerate(s.calls) if c[0] == "io:close" and j < i and tm.veq(c[1][0], hacc) and tm.veq(tm.freeze(c[4]), tm.freeze(s.calls[i][4]))]
-        okc = okc and bool(closes)
-    R.check("C19.5", "DOM", fi, "the full file is closed before the next one is opened", okc,
-            "on roll-over the previous file is not closed before the next file is opened and written (its buffered tail can be lost while the next file already has data)",
-            example="a crash right after a roll-over")
-    last = [c for c in s.calls if c[0] == "io:close" and not c[4]]
-    R.check("C19.5", "DOM", fi, "the last handle is closed after the loop", len(last) == 1 and isinstance(last[0][1][0], T) and last[0][1][0].op in ("fold", "loopout"), "no final close of the current handle")
-    # first file
-    init_p = lp.init.get(pv)
-    dats = T("sorted", (tm.mapt(tm.bv(0), tm.app("os.listdir", [P("datadir", tm.STR)], ty=tm.LIST), T("endswith", (tm.bv(0), ".dat"), tm.BOOL)),), tm.LIST)
-    want_p = tm.ite(tm.truth(dats), T("pathjoin", (P("datadir", tm.STR), tm.idx(dats, -1)), tm.STR), T("pathjoin", (P("datadir", tm.STR), "blk00000.dat"), tm.STR))
-    R.check("C19.4", "TERM-EQ", fi, "first file = last .dat in sorted order, else blk00000.dat", tm.veq(init_p, want_p), "first file: %s" % tm.first_diff(init_p, want_p))
-    R.check("C19.1", "TERM-EQ", fi, "first file opened in append mode", tm.veq(lp.init.get(h), tm.app("open", [want_p, "ab"], ty=tm.ANY)), "first open: %s" % tm.show(lp.init.get(h))[:160])
+                    okc = len(tells) == 1 and (tm.veq(tm.add([lhs, tm.mul([-1, tells[0]])]), 8 + sizes[i]) or tm.veq(tm.add([lhs, tm.mul([-1, tells[0]])]), tm.add([4 + sizes[i], tm.length(magic)]))) and \
+                        tm.veq(path_of(tells[0].args[1])[0], T("pathjoin", (datadir, cur), tm.STR))
+                if not okc:
+                    problems["C19.3"].append((label, "block %d: the fit test is `%s`, expected len(record) + tell(current file) <= MAX_BLOCKFILE_SIZE with len(record) = len(magic) + 4 + %d" % (i, tm.show(c)[:160], sizes[i])))
+                if not fits:
+                    cur = nxt(cur)
+    R.floor("C19.2", n_scen, 24, "write_scenarios")
+    titles = {"C19.2": ("TERM-EQ", "every block is written exactly once, in order, as magic || len(4 LE) || block (%d scenarios)" % n_scen, "the block that triggers the roll-over to the next file"),
+              "C19.3": ("DOM", "one fit test per block: len(record) + tell(current file) <= MAX_BLOCKFILE_SIZE decides between the current and a new file", "a batch of small blocks that together cross the limit"),
+              "C19.4": ("TERM-EQ", "the first file is the last blk*.dat in sorted order (else blk00000.dat); a roll-over goes to datadir / 'blk' + 5-digit(current number + 1) + '.dat', also twice in a row", "a batch that rolls over twice, or the first roll-over at all"),
+              "C19.5": ("DOM", "the full file is closed before the next one is opened; the last file is closed at the end; nothing else is opened or closed", "a crash right after a roll-over"),
+              "C19.1": ("TERM-EQ", "every file is opened in append mode", "a second batch")}
+    for oid, (rule, title, ex) in titles.items():
+        pr = problems[oid]
+        R.check(oid, rule, fi, title, not pr, "%s: %s (%d of %d scenarios)" % (pr[0][0] if pr else "", pr[0][1] if pr else "", len(pr), n_scen), example=ex)
